@@ -141,7 +141,9 @@ def dquote(val):
     # a double-quote character is forbidden to appear in a parameter value
     # so replace it with a single-quote character
     val = val.replace('"', "'")
-    if QUOTABLE.search(val):
+    if QUOTABLE.search(val) or val.endswith('\\'):
+        # a value ending in a backslash would otherwise escape the delimiter
+        # that follows it when the content line is split again
         return f'"{val}"'
     return val
 
